@@ -55,6 +55,39 @@ theorem C04_rows_single_call (bs : List (List JobRec))
           (allJobs ops).map (renderRow (headerOf (arity (allJobs ops)) hj) (arity (allJobs ops)))⟩ :=
   (C04_rows _ hsup (FlushOK_noflush _ [] bs)).2
 
+/-! ### several `Search` objects on one `log_dir` -/
+
+/-- **C04 (new `Search` object).**  Constructing a `Search` on a `log_dir` whose `results.csv`
+exists (header written), with a fresh evaluator / plain callable or with the evaluator instance of
+the previous `Search` (whose last flush left nothing pending): the table starts empty again and the
+evaluator's dump state is "nothing written yet"; only `num_objective` survives on a re-used
+evaluator. -/
+theorem C04_new_search (c : EvalChoice) (st : DumpState) (t : Table) (h : List Col)
+    (hex : t.header = some h) (hp : st.pending = []) :
+    searchInit c st t =
+      (⟨false, none, (match c with | .fresh => none | .reuse => st.numObjective), []⟩, Table.empty) := by
+  cases c with
+  | fresh => simp [searchInit, hex, DumpState.fresh]
+  | reuse => obtain ⟨a, b, n, p⟩ := st; simp only at hp; subst hp; simp [searchInit, hex]
+
+/-- **C04 (rows, re-used evaluator).**  A `Search` whose evaluator inherited `num_objective = m`
+from an earlier `Search`: for every sequence of dumps (mid-run flushes included — no `FlushOK`
+needed: failures are written with `m` objective columns from the start) followed by the final
+flush, `results.csv` is one header plus exactly one line per job finished **for this `Search`
+object**, rendered with arity `m`.  With `C04_new_search` and `C04_rows` (`num_objective`
+undecided: `DumpState.fresh`) this covers every history over `Search` objects and evaluator
+instances. -/
+theorem C04_rows_reused_evaluator (m : Nat) (ops : List (List JobRec × Bool))
+    (hsup : AllSupported (allJobs ops)) :
+    (runOps ⟨false, none, some m, []⟩ Table.empty (ops ++ [([], true)])).1.pending = [] ∧
+    ((allJobs ops = [] ∧
+        (runOps ⟨false, none, some m, []⟩ Table.empty (ops ++ [([], true)])).2 = Table.empty) ∨
+     ∃ hj ∈ allJobs ops,
+       (firstSuccess (allJobs ops) = some hj ∨ isStr hj.objective = true) ∧
+       (runOps ⟨false, none, some m, []⟩ Table.empty (ops ++ [([], true)])).2 =
+         ⟨some (headerOf (some m) hj), (allJobs ops).map (renderRow (headerOf (some m) hj) (some m))⟩) :=
+  final_flushM m ops hsup
+
 /-- **C04 (cells).**  The line written for a job: for every column of the header the cell is
 `specCell` — the job's own configuration value for `p:k`, its id, its status name, its metadata
 value for `m:k` (keys starting with `_` excluded), and its objective (see the three readings
@@ -298,6 +331,20 @@ example : ¬ FlushOK (arity [w0, w1]) [] [([w0], true), ([w1], false)] := by
   intro h
   have := h.1 rfl (by decide +kernel)
   revert this
+  decide +kernel
+
+/-- two `Search` objects on one `log_dir`, the second re-using the evaluator of the first: each
+leaves a table with its own header and exactly its own evaluations -/
+example : (runHistory DumpState.fresh Table.empty
+      [(.fresh, [([w0], false), ([w1], false), ([], true)]), (.reuse, [([w2], false), ([], true)])]).map
+      (fun t => (t.header.isSome, t.rows.length)) = [(true, 2), (true, 1)] := by
+  decide +kernel
+
+/-- the seeded change C04-3 (rename without resetting `_columns_dumped/_start_dumping`): the
+re-used evaluator appends to the new file without writing a header -/
+example : (runHistoryWith searchInitNoReset DumpState.fresh Table.empty
+      [(.fresh, [([w0], false), ([w1], false), ([], true)]), (.reuse, [([w2], false), ([], true)])]).map
+      (fun t => (t.header.isSome, t.rows.length)) = [(true, 2), (false, 1)] := by
   decide +kernel
 
 example : onDoneObjective (.list [.num 1, .nonfin .nan]) = .str "F" := by decide +kernel
